@@ -8,7 +8,8 @@ def make_scenarios(ctx, n):
     out = []
     for i in range(n):
         t0 = scen.small_tree(ctx.rng)
-        prior = ctx.rng.choice(["none", "one", "one", "two", "one+interrupted"])
+        prior = ["one+headless", "one", "two", "one+interrupted", "none"][i % 5] if i < 5 else \
+            ctx.rng.choice(["none", "one", "one", "two", "one+interrupted", "one+headless"])
         t1, _ = gen.mutate_tree(ctx.rng, t0)
         t2, _ = gen.mutate_tree(ctx.rng, t1)
         out.append({"id": f"K{i}", "prior": prior, "t0": t0, "t1": t1, "t2": t2,
@@ -22,6 +23,10 @@ def base_steps(sc):
         steps += [{"op": "mktree", "path": "src", "tree": sc["t0"]}, {"op": "walk"}, {"op": "backup", "opts": sc["o"][0]}]
     if sc["prior"] == "two":
         steps += [{"op": "mktree", "path": "src", "tree": sc["t1"]}, {"op": "walk"}, {"op": "backup", "opts": sc["o"][1]}]
+    if sc["prior"] == "one+headless":
+        # a backup killed after creating its directory, before writing its head
+        steps += [{"op": "mktree", "path": "src", "tree": sc["t1"]}, {"op": "walk"},
+                  {"op": "backup", "opts": sc["o"][1], "plan": {"crash": 6}}]
     if sc["prior"] == "one+interrupted":
         steps += [{"op": "mktree", "path": "src", "tree": sc["t1"]}, {"op": "walk"},
                   {"op": "backup", "opts": sc["o"][1], "plan": {"crash": 22}}]
@@ -30,7 +35,7 @@ def base_steps(sc):
 
 
 def nbands_before(sc):
-    return {"none": 0, "one": 1, "two": 2, "one+interrupted": 2}[sc["prior"]]
+    return {"none": 0, "one": 1, "two": 2, "one+interrupted": 2, "one+headless": 2}[sc["prior"]]
 
 
 def after_steps(sc, nb):
@@ -46,7 +51,7 @@ def after_steps(sc, nb):
 
 def run(ctx):
     quick = ctx.tier == "quick"
-    scs = make_scenarios(ctx, 4 if quick else 50)
+    scs = make_scenarios(ctx, 5 if quick else 50)
     ctx.cov["rule"] = ("scenarios (0-2 earlier versions, possibly an interrupted one; a new source tree; options) x EVERY index k of the backup's "
                        "storage trace: stop before operation k, and for every write also stop after creating the file empty; then: the archive "
                        "opens, every previously completed version restores as before (by id and by 'latest complete'), no index entry refers to a "
